@@ -313,8 +313,10 @@ func VerifH_C01_VecOps() {
 		}
 		for _, c := range vVecCases() {
 			vRunVecCase(c, q, false)
+			vForget() // the cases are independent (fresh symbols each)
 			if c.lazy1 != 0 || c.lazy2 != 0 {
 				vRunVecCase(c, q, true)
+				vForget()
 			}
 		}
 	}
